@@ -62,7 +62,7 @@ def impl_tables(r):
     """Implementation answer -> list of {rows:[{k:v}] (empty cells dropped), hdr:[..]}; out bytes (concatenated)."""
     tabs = []
     for rows, hdr in zip(r.get("rows") or [], r.get("hdr") or []):
-        tabs.append({"rows": [{k.encode("utf-8", "surrogateescape"): v.encode("utf-8", "surrogateescape") for k, v in (row or {}).items() if v != ""} for row in (rows or [])],
+        tabs.append({"rows": [{k.encode("utf-8", "surrogateescape"): (bytes.fromhex(v[5:]) if v.startswith("\x00hex:") else v.encode("utf-8", "surrogateescape")) for k, v in (row or {}).items() if v != ""} for row in (rows or [])],
                      "hdr": hdr})
     return tabs
 
@@ -106,3 +106,205 @@ def expand_ref(ref):
     if m:
         return [m.group(1) + str(i).encode() for i in range(int(m.group(2)), int(m.group(3)) + 1)]
     return [ref]
+
+
+# ------------------------------------------------------------------ corpus shared by the tabular properties
+def top_statement_nodes(root):
+    """Statement-holding nodes of a root in the order of GetTopLevelStatementNodes (python tuples)."""
+    if root[0] == 'C':
+        return top_statement_nodes(root[7]) + top_statement_nodes(root[8])
+    e = root[6]
+    if isinstance(e, tuple) and e[0] == 'T':
+        return [root]
+    if isinstance(e, tuple) and e[0] == 'NS':
+        return [x for x in e[1] if x[0] == 'L' and isinstance(x[6], tuple) and x[6][0] == 'T']
+    return []
+
+
+def product_size(st):
+    """Upper bound of the number of atomic statements of a statement (python tuple form), nested ones included."""
+    n = 1
+    for f, node in st:
+        if f in COMPLEX_FIELDS:
+            continue
+        n *= max(1, nleaves(node))
+    return n
+
+
+def nested_statements(st, acc=None):
+    acc = [] if acc is None else acc
+    for f, node in st:
+        for lf in leaves(node):
+            for cand in [lf] + list(lf[7]):
+                e = cand[6]
+                if isinstance(e, tuple) and e[0] == 'T':
+                    acc.append(e[1])
+                    nested_statements(e[1], acc)
+                elif isinstance(e, tuple) and e[0] == 'NS':
+                    for x in e[1]:
+                        for y in top_statement_nodes(x):
+                            acc.append(y[6][1])
+                            nested_statements(y[6][1], acc)
+    return acc
+
+
+def total_rows_bound(root):
+    t = 0
+    for n in top_statement_nodes(root):
+        st = n[6][1]
+        t += product_size(st) + sum(product_size(x) for x in nested_statements(st))
+    return t
+
+
+def rnd_opt(rng, hostile=False):
+    po = rng.choice(["none", "none", "first", "all"])
+    pi = rng.choice(["none", "none", "first", "all"])
+    return Opt(ext=rng.random() < 0.6, anno=rng.random() < 0.5, gs=rng.random() < 0.4, hdr=rng.random() < 0.6, po=po, pi=pi)
+
+
+def gen_tab_cases(tier, seed, salt=40, n_trees=None, n_texts=None, max_rows=256):
+    """-> list of dicts: stream 'T' (built root, exported through btabn) / 'P' (text, exported through the endpoint)."""
+    rng = random.Random(seed * 7919 + salt)
+    n_trees = n_trees if n_trees is not None else (2400 if tier == "quick" else 30000)
+    n_texts = n_texts if n_texts is not None else (220 if tier == "quick" else 3000)
+    cases = []
+    roots = VC.gen_roots(tier, seed, salt, n_quick=n_trees, n_thorough=n_trees, hostile_every=4)
+    for root in roots:
+        # the tabular model identifies a pair holder with the single statement node it embeds
+        if total_rows_bound(root) > max_rows:
+            continue
+        cases.append({"stream": "T", "root": root, "tree": wnode(root), "opt": rnd_opt(rng), "id": rng.choice([b"7", b"123", b"a.1", b"1.1", b"007", b"x9."]),
+                      "orig": rng.choice([b"", b"the original text", b"two\nlines | and a bar"]), "igs": rng.choice([b"", b"A(x) I(y)", b"A(\"q\") |"])})
+    tg = TX.TG(rng, suffix_p=0.25, annot_p=0.3, shared_p=0.3)
+    for i in range(n_texts):
+        parts = tg.stmt(rng.choice([0, 0, 1, 1, 2, 3]), maxleaves=3)
+        cases.append({"stream": "P", "parts": parts, "text": TX.r_stmt(parts), "opt": rnd_opt(rng), "id": rng.choice([b"7", b"123", b"a.1", b"1.1"]),
+                      "orig": rng.choice([b"", b"the original text"])})
+    return cases
+
+
+def run_tab_cases(build, cases, V, want_spec=True):
+    """Runs implementation and model on all cases, reports correspondence failures through V.broke, and fills in
+    per case: impl (answer), tabs (implementation tables), model (parsed model answer), spec (per top-level statement)."""
+    reqs = []
+    for c in cases:
+        if c["stream"] == "T":
+            reqs.append(c["opt"].req(mode="btabn", tree=c["tree"], id=c["id"].decode(), orig=c["orig"].decode(), stmt=c["igs"].decode()))
+        else:
+            reqs.append(c["opt"].req(mode="tabd", stmt=c["text"], id=c["id"].decode(), orig=c["orig"].decode()))
+    impl = run_pool([build.obs], reqs, NCPU, timeout=60)
+    lines, idx = [], []
+    for i, (c, r) in enumerate(zip(cases, impl)):
+        c["impl"] = r
+        c["tabs"] = impl_tables(r) if "rows" in r else None
+        c["model"] = None
+        if c["stream"] == "P":
+            if r.get("nodes") and r.get("perr") == "NO_ERROR_DURING_PARSING":
+                c["tree"] = r["nodes"][0]
+                try:
+                    c["root"] = rnode(c["tree"])
+                except Exception:
+                    c["root"] = None
+                c["igs"] = clean_py(c["text"].encode())
+            else:
+                continue
+        if build.modelrun:
+            lines.append(model_line(c["opt"], c["id"], c["orig"], c["igs"], c["tree"]))
+            idx.append(i)
+    mod = run_lines([build.modelrun], lines) if build.modelrun else []
+    mism = {"rows": 0, "out": 0, "err": 0, "crash": 0}
+    for i, ml in zip(idx, mod):
+        c = cases[i]
+        r = c["impl"]
+        kind, m = parse_model(ml)
+        c["model"] = (kind, m)
+        if "panic" in r or "exit" in r or "timeout" in r:
+            if kind in ("panic", "fatal"):
+                continue  # predicted by the model: outside the domain of the export
+            mism["crash"] += 1
+            continue
+        if "bad" in r:
+            V.broke("harness:tab", str(r)[:300])
+            continue
+        ok_impl = r.get("err") == "NO_ERROR_DURING_PARSING"
+        if kind == "bad":
+            V.broke("model:tab", str(m)[:300])
+            continue
+        if (kind == "ok") != ok_impl:
+            if kind == "err" and not ok_impl:
+                continue
+            mism["err"] += 1
+            if mism["err"] <= 2:
+                V.broke("correspondence:tab-outcome", json.dumps({"case": c.get("text") or c["tree"][:600], "impl": r.get("err"), "model": [kind, str(m)[:100]]}))
+            continue
+        if kind != "ok":
+            continue
+        mrows = [x["rows"] for x in m]
+        irows = [x["rows"] for x in c["tabs"]]
+        if mrows != irows:
+            mism["rows"] += 1
+            if mism["rows"] <= 2:
+                d = "row counts %s vs %s" % ([len(x) for x in mrows], [len(x) for x in irows])
+                for a, cc in zip(sum(mrows, []), sum(irows, [])):
+                    if a != cc:
+                        k = sorted(k for k in set(a) | set(cc) if a.get(k) != cc.get(k))[0]
+                        d = "cell %r of row %r: model=%r impl=%r" % (k, a.get(b"Statement ID"), a.get(k), cc.get(k))
+                        break
+                V.broke("correspondence:tab-rows", json.dumps({"case": c.get("text") or c["tree"][:600], "opt": c["opt"].key(), "diff": d}))
+            continue
+        mo = b"".join(x["out"] for x in m)
+        if mo != out_bytes(r):
+            mism["out"] += 1
+            if mism["out"] <= 2:
+                V.broke("correspondence:tab-bytes", json.dumps({"case": c.get("text") or c["tree"][:600], "opt": c["opt"].key(), "diff": first_diff(mo, out_bytes(r), 80)}))
+    # specification of the top-level statements
+    if want_spec and build.modelrun:
+        slines, sidx = [], []
+        for i, c in enumerate(cases):
+            c["spec"] = None
+            if c.get("root") is None or not c.get("tabs"):
+                continue
+            tops = top_statement_nodes(c["root"])
+            c["tops"] = tops
+            for j, n in enumerate(tops):
+                slines.append("tabspec\t" + wnode(n))
+                sidx.append((i, j))
+        sp = run_lines([build.modelrun], slines)
+        for (i, j), l in zip(sidx, sp):
+            c = cases[i]
+            if c["spec"] is None:
+                c["spec"] = [None] * len(c["tops"])
+            if l.startswith("ok:"):
+                js = json.loads(l[3:])
+                js["choices"] = [[(unhex(a), None if v is None else unhex(v)) for a, v in row] for row in js["choices"]]
+                js["links"] = [[(unhex(a), tuple(o.split()), rs) for a, o, rs in row] for row in js["links"]]
+                c["spec"][j] = js
+    return mism
+
+
+def clean_py(s):
+    """CleanInput as the repository defines it at present (kept in step with Model/Tabular.clean_input by the correspondence)."""
+    return re.sub(rb"\r?\n", b" ", s).replace(b"|", b"")
+
+
+def adjust_py(s, gs):
+    s = s.replace(b'"', b"'")
+    if gs and s[:1] == b"'":
+        s = b"'" + s
+    return s
+
+
+def own_rows(tab_rows):
+    """Rows of the statement itself (not of statements nested in it): the leading rows whose ID does not open a brace group
+    deeper than the first row's."""
+    if not tab_rows:
+        return []
+    first = tab_rows[0].get(b"Statement ID", b"")
+    depth = len(first) - len(first.lstrip(b"{"))
+    out = []
+    for r in tab_rows:
+        i = r.get(b"Statement ID", b"")
+        if len(i) - len(i.lstrip(b"{")) != depth:
+            break
+        out.append(r)
+    return out
